@@ -20,7 +20,6 @@ import (
 func SendServiceUsageRequest(
 	ue *chf_context.ChfUe, sur *charging_datatype.ServiceUsageRequest,
 ) (*charging_datatype.ServiceUsageResponse, error) {
-	ue.RatingMux.Handle("SUA", HandleSUA(ue.RatingChan))
 	rfDiameter := factory.ChfConfig.Configuration.RfDiameter
 	addr := rfDiameter.HostIPv4 + ":" + strconv.Itoa(rfDiameter.Port)
 	conn, err := ue.RatingClient.DialNetworkTLS(rfDiameter.Protocol, addr, rfDiameter.Tls.Pem, rfDiameter.Tls.Key)
@@ -29,6 +28,11 @@ func SendServiceUsageRequest(
 	}
 	// one connection per request: do not leave it (and its watchdog and reader tasks) behind
 	defer conn.Close()
+
+	// Only an answer arriving on this request's own connection is this request's answer; it is
+	// handed over without ever blocking the reader (a late answer finds nobody waiting).
+	answer := make(chan *diam.Message, 1)
+	ue.RatingMux.Handle("SUA", HandleSUA(conn, answer))
 
 	meta, ok := smpeer.FromContext(conn.Context())
 	if !ok {
@@ -51,7 +55,7 @@ func SendServiceUsageRequest(
 	}
 
 	select {
-	case m := <-ue.RatingChan:
+	case m := <-answer:
 		var sua charging_datatype.ServiceUsageResponse
 		if errMarshal := m.Unmarshal(&sua); errMarshal != nil {
 			return nil, fmt.Errorf("Failed to parse message from %v", errMarshal)
@@ -62,10 +66,18 @@ func SendServiceUsageRequest(
 	}
 }
 
-func HandleSUA(rgChan chan *diam.Message) diam.HandlerFunc {
+func HandleSUA(conn diam.Conn, rgChan chan *diam.Message) diam.HandlerFunc {
 	return func(c diam.Conn, m *diam.Message) {
 		logger.RatingLog.Tracef("Received SUA from %s", c.RemoteAddr())
 
-		rgChan <- m
+		if c != conn {
+			logger.RatingLog.Warnf("Discard SUA received on the connection of an earlier request")
+			return
+		}
+		select {
+		case rgChan <- m:
+		default:
+			logger.RatingLog.Warnf("Discard SUA: the request is no longer waiting")
+		}
 	}
 }
